@@ -33,8 +33,13 @@ def add_steering(pkg):
         M.Record("SteerPlain", (), [("value", M.Prim("int32"))])]})
     pkg.imports.append(lib)
     pkg.files[fn].append(M.Alias("SteerShadow", (), M.Named("SteerShadow", (), "Steerlib")))
+    pkg.files[fn].append(M.Record("SteerArgA", (), [("first", M.Prim("int32")), ("second", M.Prim("string"))]))
+    pkg.files[fn].append(M.Record("SteerArgB", (), [("value", M.Prim("int32")), ("weight", M.Prim("float32"))]))
     for d in pkg.defs():
         if isinstance(d, M.Protocol):
+            # the same generic instantiated several times, its later arguments being types that nothing else refers to
+            d.steps.append(("steergena", M.Named("SteerGenQ", (M.Named("SteerArgA"),)), False))
+            d.steps.append(("steergenb", M.Named("SteerGenQ", (M.Named("SteerArgB"),)), True))
             d.steps.append(("steerq", M.Named("SteerRecQ"), False))
             d.steps.append(("steershadow", M.Named("SteerShadow"), False))
             d.steps.append(("steerplain", M.Named("SteerPlain", (), "Steerlib"), False))
@@ -84,6 +89,96 @@ def near_identical(pkg, edit):
     elif edit == "map_key":
         rec.fields = [(n, M.Map(M.Prim("string"), M.Prim("int64")) if n == "eta" else t) for n, t in rec.fields]
     return b
+
+
+def reachable_defs(pkg, proto):
+    """[(package, definition)] of every named type the protocol's steps reach: through fields, alias targets, union
+    cases, containers and - separately at every use - generic type arguments."""
+    env = M.Env(pkg)
+    seen, order = set(), []
+
+    def walk(t, ns):
+        if isinstance(t, M.Named):
+            tns = t.ns or ns
+            d = env.by_ns[tns].find(t.name)
+            for a in t.args:
+                walk(a, ns)
+            if d is None or (tns, t.name) in seen:
+                return
+            seen.add((tns, t.name))
+            order.append((env.by_ns[tns], d))
+            if isinstance(d, M.Record):
+                for _, ft in d.fields:
+                    walk(ft, tns)
+            elif isinstance(d, M.Alias):
+                walk(d.type, tns)
+        elif isinstance(t, M.Opt):
+            walk(t.inner, ns)
+        elif isinstance(t, M.Union):
+            for _, c in t.cases:
+                walk(c, ns)
+        elif isinstance(t, (M.Vec, M.Arr)):
+            walk(t.inner, ns)
+        elif isinstance(t, M.Map):
+            walk(t.key, ns); walk(t.value, ns)
+
+    for _, t, _ in proto.steps:
+        walk(t, pkg.namespace)
+    return order
+
+
+OTHER_PRIM = {"int8": "int16", "uint8": "uint16", "int16": "int32", "uint16": "uint32", "int32": "int64", "uint32": "uint64", "int64": "int32",
+              "uint64": "uint32", "size": "uint32", "float32": "float64", "float64": "float32", "bool": "uint8", "string": "int32",
+              "complexfloat32": "complexfloat64", "complexfloat64": "complexfloat32", "date": "datetime", "time": "datetime", "datetime": "date"}
+
+
+def random_wire_edit(pkg, rng):
+    """A copy of pkg in which one definition that some protocol reaches - chosen at random among all of them, however
+    it is reached - differs in one detail that the schema has to show: the type, name or order of record fields, an
+    added field, an enum symbol or value, the target of an alias.  Returns (copy, description) or (None, None)."""
+    b = copy.deepcopy(pkg)
+    protos = [d for d in b.defs() if isinstance(d, M.Protocol)]
+    proto = rng.choice(protos)
+    defs = reachable_defs(b, proto)
+    rng.shuffle(defs)
+    for owner, d in defs:
+        where = "%s.%s" % (owner.namespace, d.name)
+        if isinstance(d, M.Record):
+            plain = [k for k, (n, t) in enumerate(d.fields) if isinstance(t, M.Prim) and t.name in OTHER_PRIM]
+            opts = ["add_field"]
+            if not d.computed:
+                if plain:
+                    opts += ["retype", "retype"]
+                if len(d.fields) >= 2:
+                    opts.append("swap")
+                opts.append("rename")
+            op = rng.choice(opts)
+            if op == "retype":
+                k = rng.choice(plain)
+                n, t = d.fields[k]
+                d.fields[k] = (n, M.Prim(OTHER_PRIM[t.name]))
+                return b, "%s: field %s %s -> %s" % (where, n, t.name, OTHER_PRIM[t.name])
+            if op == "swap":
+                k = rng.randrange(len(d.fields) - 1)
+                d.fields[k], d.fields[k + 1] = d.fields[k + 1], d.fields[k]
+                return b, "%s: fields %s and %s swapped" % (where, d.fields[k][0], d.fields[k + 1][0])
+            if op == "rename":
+                k = rng.randrange(len(d.fields))
+                n, t = d.fields[k]
+                d.fields[k] = (n + "Zq", t)
+                return b, "%s: field %s renamed" % (where, n)
+            d.fields.append(("addedZq", M.Prim("int32")))
+            return b, "%s: field added" % where
+        if isinstance(d, M.Enum):
+            k = rng.randrange(len(d.values))
+            sym, v = d.values[k]
+            d.values[k] = (sym + "Zq", v)
+            return b, "%s: symbol %s renamed" % (where, sym)
+        if isinstance(d, M.Alias) and isinstance(d.type, M.Prim) and d.type.name in OTHER_PRIM:
+            old = d.type.name
+            d.type = M.Prim(OTHER_PRIM[old])
+            return b, "%s: alias target %s -> %s" % (where, old, OTHER_PRIM[old])
+    return None, None
 
 
 def uvlen(n):
@@ -153,33 +248,15 @@ def doc(model_b, proto, ctx, what, detail, payload_hex=None, fmt="binary", lang=
             "payload_hex": payload_hex, "format": fmt, "lang": lang, "seed": ctx["seed"], "model_index": ctx["i"]}
 
 
-def model_task(task, ybin, root):
-    seed, i, quick = task["seed"], task["i"], task["tier"] == "quick"
-    rng = M.derive(seed, "c15", i)
-    want_cpp = (i % 5 == 0) if quick else (i % 2 == 0)
-    cfg = M.GenConfig.swarm(rng.fork("cfg"))
-    cfg.n_protocols = (1, 2)        # plus the sibling of the first one
-    if want_cpp:
-        cfg.time_types = False
-    pkg_a = sw.stream_package(rng.next(), cfg=cfg, pad=False, for_cpp=want_cpp)
-    add_steering(pkg_a)
-    edit = rng.choice(EDITS)
-    pkg_b = near_identical(pkg_a, edit)
-    stats, viols, cases = {"models_with_cpp": 1 if want_cpp else 0, "edit_" + edit: 1}, [], []
-    # model A: only its schemas are needed (its streams come from the reference encoder)
-    model_a = P.PyModel(pkg_a, ybin, root)
+def run_twin(task, rng, pkg_b, edit, a_streams, want_cpp, ybin, root, quick, stats, viols, cases, only_misdelivery=False):
+    i = task["i"]
     try:
-        env_a = model_a.env
-        codec_a = R.Codec(env_a)
-        a_streams = {}
-        for proto in model_a.protocols():
-            r = rng.fork("avals", proto.name)
-            vals = sw.gen_values(env_a, pkg_a.namespace, proto, r, finite=True, items=(1, 3))
-            a_streams[proto.name] = (codec_a.encode_stream(proto, pkg_a.namespace, model_a.schema(proto), vals),
-                                     codec_a.encode_ndjson(proto, pkg_a.namespace, model_a.schema(proto), vals), model_a.schema(proto))
-    finally:
-        model_a.close()
-    model = P.PyModel(pkg_b, ybin, root, want_cpp=want_cpp, cpp_opts=C.CPP_OPTS)
+        model = P.PyModel(pkg_b, ybin, root, want_cpp=want_cpp, cpp_opts=C.CPP_OPTS)
+    except P.GeneratorRejected:          # the twin is not a package yardl accepts after all
+        if only_misdelivery:
+            stats["random_twin_rejected(discarded)"] = stats.get("random_twin_rejected(discarded)", 0) + 1
+            return
+        raise
     try:
         cm = None
         if want_cpp:
@@ -214,19 +291,19 @@ def model_task(task, ybin, root):
                     stats["near_identical_models_with_identical_schema_text"] = stats.get("near_identical_models_with_identical_schema_text", 0) + 1
                 jobs.append(("stream of the near-identical protocol (%s) delivered" % edit, "misdelivery_near_identical", "binary", a_streams[proto.name][0]))
                 jobs.append(("NDJSON stream of the near-identical protocol (%s) delivered" % edit, "misdelivery_near_identical", "ndjson", a_streams[proto.name][1]))
-            for other in protos:
+            for other in ([] if only_misdelivery else protos):
                 if other.name != proto.name:
                     sib = other.name == proto.name + SIBLING or proto.name == other.name + SIBLING
                     cls = "misdelivery_sibling_protocol" if sib else "misdelivery_unrelated"
                     jobs.append(("stream of %s protocol %s delivered" % ("sibling" if sib else "unrelated", other.name), cls, "binary", own[other.name][0]))
                     jobs.append(("NDJSON stream of %s protocol %s delivered" % ("sibling" if sib else "unrelated", other.name), cls, "ndjson", own[other.name][1]))
-            for what, cls, mutated in header_faults(data, schema, rng.fork("hf", proto.name), quick):
+            for what, cls, mutated in ([] if only_misdelivery else header_faults(data, schema, rng.fork("hf", proto.name), quick)):
                 jobs.append((what, cls, "binary", mutated))
             # NDJSON header line corruptions
             raw = text.encode("utf-8")
             nl = raw.index(b"\n")
             rr = rng.fork("nd", proto.name)
-            for _ in range(8 if quick else 60):
+            for _ in range(0 if only_misdelivery else (8 if quick else 60)):
                 pos, bit = rr.randint(0, nl - 1), rr.randint(0, 7)
                 m = bytearray(raw); m[pos] ^= 1 << bit
                 try:
@@ -237,7 +314,8 @@ def model_task(task, ybin, root):
                     stats["benign_corruption(skipped)"] = stats.get("benign_corruption(skipped)", 0) + 1
                     continue
                 jobs.append(("flip bit %d of NDJSON header byte %d" % (bit, pos), "flip_ndjson_header", "ndjson", bytes(m)))
-            jobs.append(("NDJSON header with version 2", "ndjson_version", "ndjson", raw.replace(b'"version":1', b'"version":2', 1)))
+            if not only_misdelivery:
+                jobs.append(("NDJSON header with version 2", "ndjson_version", "ndjson", raw.replace(b'"version":1', b'"version":2', 1)))
             for what, cls, fmt, payload in jobs:
                 stats["runs"] += 1
                 stats[cls] = stats.get(cls, 0) + 1
@@ -288,6 +366,40 @@ def model_task(task, ybin, root):
                     viols.append(({"class": "foreign_or_corrupt_stream_accepted", "lang": "cpp", "format": fmt, "fault": cls, "needs_earlier_readers": "history" in d}, d))
     finally:
         model.close()
+
+
+def model_task(task, ybin, root):
+    seed, i, quick = task["seed"], task["i"], task["tier"] == "quick"
+    rng = M.derive(seed, "c15", i)
+    want_cpp = (i % 5 == 0) if quick else (i % 2 == 0)
+    cfg = M.GenConfig.swarm(rng.fork("cfg"))
+    cfg.n_protocols = (1, 2)        # plus the sibling of the first one
+    if want_cpp:
+        cfg.time_types = False
+    pkg_a = sw.stream_package(rng.next(), cfg=cfg, pad=False, for_cpp=want_cpp)
+    add_steering(pkg_a)
+    edit = rng.choice(EDITS)
+    pkg_b = near_identical(pkg_a, edit)
+    stats, viols, cases = {"models_with_cpp": 1 if want_cpp else 0, "edit_" + edit: 1}, [], []
+    # model A: only its schemas are needed (its streams come from the reference encoder)
+    model_a = P.PyModel(pkg_a, ybin, root)
+    try:
+        env_a = model_a.env
+        codec_a = R.Codec(env_a)
+        a_streams = {}
+        for proto in model_a.protocols():
+            r = rng.fork("avals", proto.name)
+            vals = sw.gen_values(env_a, pkg_a.namespace, proto, r, finite=True, items=(1, 3))
+            a_streams[proto.name] = (codec_a.encode_stream(proto, pkg_a.namespace, model_a.schema(proto), vals),
+                                     codec_a.encode_ndjson(proto, pkg_a.namespace, model_a.schema(proto), vals), model_a.schema(proto))
+    finally:
+        model_a.close()
+    run_twin(task, rng, pkg_b, edit, a_streams, want_cpp, ybin, root, quick, stats, viols, cases)
+    # a second twin: one random schema-relevant edit in a random definition that a protocol reaches (however it is reached)
+    pkg_c, edit_c = random_wire_edit(pkg_a, rng.fork("wire"))
+    if pkg_c is not None:
+        stats["random_twin"] = 1
+        run_twin(task, rng.fork("twin2"), pkg_c, "random: " + edit_c, a_streams, want_cpp, ybin, root, quick, stats, viols, cases, only_misdelivery=True)
     seen, out = set(), []
     for rec, d in viols:
         k = (rec["lang"], rec["format"], rec["fault"])
